@@ -625,8 +625,10 @@ class Execution(object):
         x0 = np.array(cfg["x0"], dtype=float)
         kw = {}
         lo, hi = cfg.get("lo"), cfg.get("hi")
-        self.lo = None if lo is None else np.array([-1e20 if v is None else v for v in lo], dtype=float)
-        self.hi = None if hi is None else np.array([1e20 if v is None else v for v in hi], dtype=float)
+        # None = the documented 'no bound' value 1e20; the string "inf" = an infinite entry (SciPy-style one-sided bounds, which
+        # solve() accepts and treats like 1e20)
+        self.lo = None if lo is None else np.array([-1e20 if v is None else (-np.inf if v == "inf" else v) for v in lo], dtype=float)
+        self.hi = None if hi is None else np.array([1e20 if v is None else (np.inf if v == "inf" else v) for v in hi], dtype=float)
         if lo is not None or hi is not None:
             kw["bounds"] = (self.lo, self.hi)
         for key in ("npt", "rhobeg", "rhoend", "maxfun"):
